@@ -273,6 +273,22 @@ func checkC08(c *Ctx) {
 			{"function/body-and-handler-untouched", fn + "如何试？\n\t令果 = （求商：6、3、2）\n\t输出 1\n\n\t拦截异常：\n\t\t输出 迹\n输出（试）\n", `list[]`},
 		})
 	}
+	// a call binds its arguments to the callee's inputs whatever the caller's blocks hold: a local of
+	// the calling block that is named like an input of the callee, at any block depth, after earlier
+	// calls written at other depths (every call opens and closes the same kinds of scopes)
+	{
+		fn := "如何加一？\n\t输入数\n\t输出 数 + 1\n定义器：\n\t其底 = 10\n\t如何加？\n\t\t输入数\n\t\t如果 数 > 0：\n\t\t\t令丙 = 1\n\t\t输出 其底 + 数\n如何新建器？\n\t输入数\n\t其底 = 数\n"
+		c.runHand("same-named-local-in-caller", []handCase{
+			{"function/deeper-block-after-top-level-call", fn + "令甲 =（加一：1）\n如果 真：\n\t令数 = 5\n\t令结果 =（加一：数）\n\t输出【甲，结果】\n", "list[num(2),num(6)]"},
+			{"function/loop-body-after-top-level-call", fn + "令甲 =（加一：1）\n令和 = 0\n以项遍历【1，2】：\n\t令数 = 项 * 10\n\t和 = 和 +（加一：数）\n输出 和\n", "num(32)"},
+			{"function/two-levels-deeper", fn + "令甲 =（加一：1）\n如果 真：\n\t令乙 =（加一：2）\n\t如果 真：\n\t\t令数 = 7\n\t\t输出【甲，乙，（加一：数）】\n", "list[num(2),num(3),num(8)]"},
+			{"function/inside-method-after-calls", fn + "如何外？\n\t令甲 =（加一：1）\n\t如果 真：\n\t\t令数 = 5\n\t\t输出（加一：数）\n\t输出 0\n输出【（外），（外）】\n", "list[num(6),num(6)]"},
+			{"type-method/deeper-block-after-call", fn + "令物 =（新建器：1）\n令甲 = 以物（加：1）\n如果 真：\n\t令数 = 5\n\t输出【甲，以物（加：数）】\n", "list[num(2),num(6)]"},
+			{"constructor/deeper-block-after-call", fn + "令物 =（新建器：1）\n如果 真：\n\t令数 = 5\n\t令新 =（新建器：数）\n\t输出【物之底，新之底】\n", "list[num(1),num(5)]"},
+			{"function/redeclaring-an-input-after-an-inner-block", "如何试？\n\t输入数\n\t如果 数 > 0：\n\t\t令内 = 1\n\t令数 = 9\n\t输出 数\n输出（试：1）\n", "error:*"},
+			{"function/first-call-in-a-deeper-block-control", fn + "如果 真：\n\t令数 = 5\n\t输出（加一：数）\n", "num(6)"},
+		})
+	}
 	// objects of a type that another module defines: 新建 in the importer initialises them with the
 	// constructor as its module wrote it (that module's variables, helpers, constants), 其 is the new
 	// object, methods and constructor agree, and the importer's own names of the same spelling play
